@@ -49,7 +49,14 @@ SCHEMES = {'backward_forward_euler': 0, 'semi_implicit_leapfrog': 1, 'crank_nico
 RK_INTEGRATORS = ('backward_forward_euler', 'crank_nicolson_rk2', 'crank_nicolson_rk3', 'crank_nicolson_rk4', 'imex_rk_sil3')
 FILTER_STACKS = ([], ['exponential'], ['exponential', 'diffusion'])
 GRIDS = {'real': dict(M=4, L=5, I=12, J=6, impl='real'),
-         'fast': dict(M=4, L=5, I=12, J=6, impl='fast', base_shape_multiple=4)}
+         'fast': dict(M=4, L=5, I=12, J=6, impl='fast', base_shape_multiple=4),
+         # padded to (16, 8), unstacked Fourier transforms, reversed einsum argument order
+         'fast8': dict(M=4, L=5, I=12, J=6, impl='fast', base_shape_multiple=8, stacked_fourier_transforms=False, reverse_einsum_arg_order=True),
+         'fast_stacked': dict(M=4, L=5, I=12, J=6, impl='fast', stacked_fourier_transforms=True),
+         # total_wavenumbers > longitude_wavenumbers + 1, non-unit radius
+         'real_L6': dict(M=3, L=6, I=10, J=8, impl='real', radius=2.5),
+         'real_L6_r1': dict(M=3, L=6, I=10, J=8, impl='real'),     # differs from real_L6 in the radius only
+         'fast_L6': dict(M=3, L=6, I=10, J=8, impl='fast', base_shape_multiple=4, radius=0.5)}
 
 # a third-order 3-stage low-storage scheme different from the built-in ones (Williamson case 7 style,
 # exact rationals) and a 3-stage IMEX tableau with zero entries (exercises the zero skipping)
@@ -90,6 +97,10 @@ def generate(ctx):
     if not quick:
         pats += [dict(M=6, L=7, I=18, J=10, impl='real'), dict(M=6, L=7, I=18, J=10, impl='fast', base_shape_multiple=8),
                  dict(M=2, L=3, I=6, J=4, impl='real'), dict(M=5, L=4, I=14, J=8, impl='fast')]
+    pats += [dict(M=2, L=3, I=256, J=4, impl='real'), dict(M=2, L=3, I=6, J=200, impl='fast'), dict(M=4, L=5, I=6, J=6, impl='fast'),
+             dict(M=1, L=2, I=4, J=2, impl='real'), GRIDS['fast8'], GRIDS['fast_L6']]
+    if not quick:
+        pats += [dict(M=4, L=5, I=6, J=6, impl='real'), dict(M=3, L=8, I=10, J=12, impl='fast', base_shape_multiple=8), GRIDS['real_L6'], GRIDS['fast_stacked']]
     for g in pats:
         yield 'pattern', {'grid': g, 'seed': _seed(rng)}
     # --- unit level ---------------------------------------------------------------
@@ -97,6 +108,21 @@ def generate(ctx):
     for impl in ('real', 'fast'):
         for kind in kinds + ['sw']:
             yield 'unit', {'kind': kind, 'impl': impl, 'seed': _seed(rng)}
+    # constructor options, untruncated orography, other layouts
+    uopts = [('dry', 'real', {'vertical_advection': 'upwind', 'oro': 'untruncated'}),
+             ('moist', 'fast8', {'vertical_matmul_method': 'sparse', 'oro': 'untruncated'}),
+             ('sw', 'real_L6', {'oro': 'untruncated'}), ('time', 'fast_L6', {'include_vertical_advection': False})]
+    if not quick:
+        uopts += [('moist', 'real_L6', {'vertical_advection': 'upwind'}), ('cloud', 'fast_stacked', {'oro': 'untruncated', 'tref': 'constant'}),
+                  ('sw', 'fast8', {'oro': 'none'}), ('dry', 'fast_L6', {'vertical_matmul_method': 'dense', 'oro': 'none'}),
+                  ('time', 'real', {'vertical_matmul_method': 'sparse', 'vertical_advection': 'upwind'})]
+    for kind, impl, o in uopts:
+        ctx.count('unit-options:' + ','.join(sorted(o)))
+        yield 'unit', {'kind': kind, 'impl': impl, 'seed': _seed(rng), 'opts': o}
+    yield 'unit', {'kind': 'dry', 'impl': 'real_L6', 'seed': _seed(rng), 'interleave': ['real_L6_r1', 'fast_L6'], 'opts': {'K': 2}}
+    if not quick:
+        yield 'unit', {'kind': 'sw', 'impl': 'fast', 'seed': _seed(rng), 'interleave': ['fast8', 'fast_stacked'], 'opts': {'K': 1}}
+        yield 'unit', {'kind': 'moist', 'impl': 'fast_stacked', 'seed': _seed(rng), 'interleave': ['fast', 'real_L6']}
     yield 'time_unit', {'seed': _seed(rng)}
     for dt in ([0.015625, 0.01] if quick else [0.015625, 0.01, 0.3, 1.0 / 3, 7.25]):
         yield 'fix_time_unit', {'dt': dt}
@@ -106,52 +132,69 @@ def generate(ctx):
     E = lambda **kw: dict(type='exponential', **kw)
     D = lambda **kw: dict(type='diffusion', **kw)
     RA = dict(type='robert_asselin', r=0.05); FIX = dict(type='fix_time')
+    UT = {'oro': 'untruncated'}
     if quick:
-        combos = [('dry', 'real', 'imex_rk_sil3', ['exponential', 'diffusion'], 0, 1),
-                  ('time', 'fast', 'crank_nicolson_rk4', [E(cutoff=0.7, order=2, tau_mult=5), FIX], -10, 1),
-                  ('moist', 'real', 'crank_nicolson_rk3', [E(cutoff=0.3, order=6), D(order=2), FIX], 3, 1),
-                  ('time', 'real', 'backward_forward_euler', [FIX], -3, -1),
-                  ('time', 'real', 'imex_rk_sil3', [E(cutoff=0.4, order=18), D(order=3), FIX], -0.5, 1),
-                  ('moist', 'fast', 'imex_rk_sil3', ['exponential'], 0, 1),
-                  ('dry', 'fast', 'crank_nicolson_rk2', [E(cutoff=0.4, order=1), D(order=3)], 0, 1),
-                  ('time', 'real', 'semi_implicit_leapfrog', [E(cutoff=0.3, order=6), RA, FIX], -10, 1),
-                  ('dry', 'real', 'semi_implicit_leapfrog', [E(cutoff=0.4, order=18, tau_mult=1), RA], 0, 1),
-                  ('sw', 'real', 'semi_implicit_leapfrog', [E(cutoff=0.4, order=18, tau_mult=1), RA], 0, 1),
-                  ('sw', 'real', 'crank_nicolson_rk3', ['exponential', 'diffusion'], 0, 1),
-                  ('sw', 'fast', 'imex_rk_sil3', [E(cutoff=0.3, order=6, tau_mult=2), D(order=2)], 0, 1),
-                  ('sw', 'real', 'backward_forward_euler', [], 0, 1)]
+        combos = [('dry', 'real', 'imex_rk_sil3', ['exponential', 'diffusion'], 0, 1, {'degree': 'top', 'opts': UT}),
+                  ('time', 'fast', 'crank_nicolson_rk4', [E(cutoff=0.7, order=2, tau_mult=5), FIX], -10, 1, {'degree': 'top'}),
+                  ('moist', 'real', 'crank_nicolson_rk3', [E(cutoff=0.3, order=6), D(order=2), FIX], 3, 1, {'degree': 'top', 'opts': UT}),
+                  ('time', 'real', 'backward_forward_euler', [FIX], -3, -1, {'opts': {'vertical_advection': 'upwind'}}),
+                  ('time', 'real', 'imex_rk_sil3', [E(cutoff=0.4, order=18), D(order=3), FIX], -0.5, 1, {'opts': {'K': 2}}),
+                  ('moist', 'fast8', 'imex_rk_sil3', ['exponential'], 0, 1, {'opts': {'vertical_matmul_method': 'sparse'}}),
+                  ('dry', 'fast', 'crank_nicolson_rk2', [E(cutoff=0.4, order=1), D(order=3)], 0, 1, {'mode': 'top_single'}),
+                  ('time', 'real', 'semi_implicit_leapfrog', [E(cutoff=0.3, order=6), RA, FIX], -10, 1, {'alpha': 0.75}),
+                  ('dry', 'real', 'semi_implicit_leapfrog', [E(cutoff=0.4, order=18, tau_mult=1), RA], 0, 1, {'alpha': 1.0, 'degree': 'top'}),
+                  ('sw', 'real', 'semi_implicit_leapfrog', [E(cutoff=0.4, order=18, tau_mult=1), RA], 0, 1, {'opts': UT, 'degree': 'top'}),
+                  ('sw', 'real_L6', 'crank_nicolson_rk3', ['exponential', 'diffusion'], 0, 1, {'degree': 'top'}),
+                  ('sw', 'fast', 'imex_rk_sil3', [E(cutoff=0.3, order=6, tau_mult=2), D(order=2)], 0, 1, {'mode': 'top_single'}),
+                  ('sw', 'real', 'backward_forward_euler', [], 0, -1, {'opts': {'oro': 'none', 'K': 1}}),
+                  ('sw', 'fast', 'backward_forward_euler', ['exponential'], 0, 1, {'dtype': 'float32', 'opts': {'K': 3}}),
+                  ('dry', 'real', 'low_storage', [E(cutoff=0.3, order=2)], 0, 1, {'opts': {'include_vertical_advection': False, 'K': 1}}),
+                  ('time', 'fast_L6', 'imex_tableau', [D(order=2), FIX], 3, 1, {'degree': 'top'}),
+                  ('moist', 'fast_stacked', 'crank_nicolson_rk2', [], 0, 1, {'mode': 'rest', 'opts': UT})]
     else:
         combos = []
         cut = [0.3, 0.4, 0.7]; orders = [1, 2, 6, 18]; taus = [1, 5, 10, 40]; n0s = [-10, -0.5, 0, 3]
+        extras = [{'degree': 'top'}, {'degree': 'top', 'opts': UT}, {'mode': 'top_single'}, {'opts': {'vertical_advection': 'upwind'}, 'degree': 'top'},
+                  {'opts': {'vertical_matmul_method': 'sparse', 'oro': 'untruncated'}}, {'mode': 'rest', 'opts': UT},
+                  {'opts': {'include_vertical_advection': False, 'oro': 'none'}}, {'degree': 3, 'opts': {'tref': 'constant'}},
+                  {'opts': {'K': 1}}, {'opts': {'K': 2, 'oro': 'untruncated'}, 'degree': 'top'}, {'dtype': 'float32', 'degree': 'top'}]
+        RA = dict(type='robert_asselin', r=0.2)
+        gnames = list(GRIDS)
         i = 0
         for kind in ['dry', 'time', 'moist', 'cloud', 'sw']:
-            for integ in RK_INTEGRATORS + ('semi_implicit_leapfrog',):
+            for integ in RK_INTEGRATORS + ('semi_implicit_leapfrog', 'low_storage', 'imex_tableau'):
                 lfi = integ == 'semi_implicit_leapfrog'
+                custom = integ in ('low_storage', 'imex_tableau')
                 for f in range(3):
                     impls = ('real', 'fast') if (f == 2 or integ == 'imex_rk_sil3') else (('real',) if f == 0 else ('fast',))
-                    if kind == 'cloud' and f != 2: continue
+                    if (kind == 'cloud' or custom) and f != 2: continue
                     for impl in impls:
                         st = list(FILTER_STACKS[f])
                         if lfi and f == 2: st = ['exponential', RA]
-                        combos.append((kind, impl, integ, st, 0, 1))
-                # non-default filter parameters, the sim_time clean-up, shifted clocks
+                        combos.append((kind, impl, integ, st, 0, 1, {}))
+                # non-default filter parameters, the sim_time clean-up, shifted clocks, options, layouts, structured states
                 for rep in range(2):
                     i += 1
                     st = [E(cutoff=cut[i % 3], order=orders[i % 4], tau_mult=taus[(i // 2) % 4])]
                     if rep == 0: st.append(RA if lfi else D(order=1 + i % 3))
                     elif lfi: st += [RA]
                     if kind not in ('dry', 'sw'): st.append(FIX)
-                    combos.append((kind, 'real' if (i + rep) % 2 else 'fast', integ, st, n0s[i % 4], 1))
-            if kind in ('time', 'moist'):
-                for integ in ('backward_forward_euler', 'crank_nicolson_rk3', 'imex_rk_sil3'):
-                    combos.append((kind, 'real', integ, [FIX], -3, -1))         # negative dt, positive start time
-                    combos.append((kind, 'real', integ, [D(order=2), FIX], 10, -1))
-    for kind, impl, integ, st, n0, sgn in combos:
-        ctx.count(f'traj:{kind}'); ctx.count(f'integrator:{integ}'); ctx.count(f'filters:{len(st)}')
+                    ex = dict(extras[i % len(extras)])
+                    if lfi: ex['alpha'] = [0.5, 0.75, 1.0, 0.6][i % 4]
+                    combos.append((kind, gnames[i % len(gnames)], integ, st, n0s[i % 4], 1, ex))
+            for integ in ('backward_forward_euler', 'crank_nicolson_rk3', 'imex_rk_sil3'):     # negative dt
+                if kind in ('time', 'moist'):
+                    combos.append((kind, 'real', integ, [FIX], -3, -1, {}))
+                    combos.append((kind, 'fast8', integ, [D(order=2), FIX], 10, -1, {'degree': 'top'}))
+                elif kind != 'cloud':
+                    combos.append((kind, 'real', integ, [D(order=2)], 0, -1, {'degree': 'top', 'opts': UT}))
+    for kind, impl, integ, st, n0, sgn, ex in combos:
+        ctx.count(f'traj:{kind}'); ctx.count(f'integrator:{integ}'); ctx.count(f'filters:{len(st)}'); ctx.count(f'grid:{impl}')
+        for k_, v_ in ex.items(): ctx.count(f'traj-extra:{k_}={v_ if not isinstance(v_, dict) else ",".join(sorted(v_))}')
         if any(isinstance(f, dict) and f.get('cutoff') for f in st): ctx.count('stack:exponential cutoff>0')
         if FIX in st: ctx.count(f'stack:fix_time n0={n0} dt{"<" if sgn < 0 else ">"}0')
-        yield 'traj', {'kind': kind, 'impl': impl, 'integrator': integ, 'filters': st, 'ks': [1, 2, 5], 'n0': n0,
-                       'seed': _seed(rng), 'dt': sgn * [0.02, 0.01, 0.005][int(rng.integers(0, 3))]}
+        yield 'traj', dict({'kind': kind, 'impl': impl, 'integrator': integ, 'filters': st, 'ks': [1, 2, 5], 'n0': n0,
+                            'seed': _seed(rng), 'dt': sgn * [0.02, 0.01, 0.005][int(rng.integers(0, 3))]}, **ex)
 
 
 # ---------------------------------------------------------------------------
@@ -238,10 +281,37 @@ def r_scalar(ctx, a):
         ctx.corr(f'{name}: consistency sum, implementation vs model', [inc], [c], scale=1.0, tol_rel=1e-13)
 
 
-def _required_zero(g):
-    """the property's pattern from the implementation's own grid object"""
+def _required_zero_impl(g):
+    """the pattern according to the implementation's own grid object (only compared, never used as a reference)"""
     idx = np.arange(g.modal_shape[1])
     return (~np.asarray(g.mask)) | (idx[None, :] >= g.total_wavenumbers - 1)
+
+
+def _required_zero(g, gd=None):
+    """the property's pattern computed from the layout definition alone (numpy, independent of grid.mask):
+    reference layout rows m = 0, +1, -1, +2, -2, ...; fast layout rows m = 0, (unused), +1, -1, ... followed by
+    padding rows; columns l = 0..L-1 followed by padding columns.  Entries with |m| > l, the unused row, padding and
+    the top total wavenumber l >= L-1 must vanish."""
+    gd = gd or g._c11_gd
+    l = np.arange(g.modal_shape[1])[None, :]
+    return (~_mask_indep(g, gd)) | (l >= gd['L'] - 1)
+
+
+def _mask_indep(g, gd=None):
+    """the triangular truncation |m| <= l < L of the layout definition (numpy only)"""
+    gd = gd or g._c11_gd
+    M, L = gd['M'], gd['L']; R, C = g.modal_shape
+    i = np.arange(R)[:, None]; l = np.arange(C)[None, :]
+    if gd['impl'] == 'real':
+        return ((i + 1) // 2 <= l) & (i < 2 * M - 1) & (l < L)
+    return (i // 2 <= l) & (i != 1) & (i < 2 * M) & (l < L)
+
+
+def _grid(gd):
+    g = dyn.grid(**gd)
+    try: object.__setattr__(g, '_c11_gd', dict(gd))
+    except Exception: pass
+    return g
 
 
 def _grid_ints(g, gd):
@@ -251,8 +321,10 @@ def _grid_ints(g, gd):
 
 def r_pattern(ctx, a):
     m = dyn.mods(); jnp = m['jnp']
-    gd = a['grid']; g = dyn.grid(**gd)
+    gd = a['grid']; g = _grid(gd)
     ints = _grid_ints(g, gd); R, C = g.modal_shape
+    ctx.oracle('grid.mask / total_wavenumbers give the triangular pattern of the layout definition',
+               bool(np.array_equal(_required_zero_impl(g), _required_zero(g, gd))), {'grid': gd})
     ctx.count(f'pattern:{gd["impl"]}:{R}x{C}')
     mo = ctx.model.call(1, ints, [])
     ctx.exact('required-zero pattern: model (mask, top wavenumber, padding) vs grid.mask / total_wavenumbers',
@@ -264,6 +336,19 @@ def r_pattern(ctx, a):
     ctx.exact('clip_wavenumbers vs model clip', y.ravel().tolist(), [float(v) for v in mo])
     ctx.oracle('clip_wavenumbers zeroes the top total wavenumber and the padded columns exactly',
                bool(np.all(y[:, gd['L'] - 1:] == 0.0)) and bool(np.all(y[:, :gd['L'] - 1] == x[:, :gd['L'] - 1])))
+    Lg = gd['L']
+    for n in (2, 3, Lg, Lg + 1):
+        yn = np.asarray(g.clip_wavenumbers(jnp.asarray(x), n=n))
+        ctx.oracle('clip_wavenumbers(n) zeroes exactly the highest n total wavenumbers and the padded columns',
+                   bool(np.all(yn[:, max(Lg - n, 0):] == 0.0)) and bool(np.all(yn[:, :max(Lg - n, 0)] == x[:, :max(Lg - n, 0)])), {'n': n, 'grid': gd})
+    for n in (0, -1):
+        try: g.clip_wavenumbers(jnp.asarray(x), n=n); rej = False
+        except ValueError: rej = True
+        ctx.oracle('clip_wavenumbers rejects n <= 0', rej, {'n': n})
+    tree = {'a': jnp.asarray(x), 'b': (jnp.asarray(np.stack([x, 2 * x])), 1.5), 't': jnp.asarray(0.25)}
+    ct = g.clip_wavenumbers(tree)
+    ctx.oracle('clip_wavenumbers on a pytree clips every array leaf and leaves scalars alone',
+               bool(np.all(np.asarray(ct['b'][0])[..., Lg - 1:] == 0.0)) and float(ct['t']) == 0.25 and ct['b'][1] == 1.5)
     ok = ctx.model.call(2, ints, [(x * ~_required_zero(g)).ravel().tolist()])
     bad = ctx.model.call(2, ints, [x.ravel().tolist()])
     ctx.exact('pattern_ok accepts a conforming array and rejects a dense one', [int(ok[0]), int(bad[0])],
@@ -276,32 +361,81 @@ def r_pattern(ctx, a):
 _CACHE = {}
 
 
-def _setup(kind, impl, seed, K=3):
-    """grid, coordinates, equation for a class; deterministic in (kind, impl, seed)"""
+SW_REF_POTENTIAL = [1.0, 0.5, 0.25]
+SW_DENSITIES = [1.0, 1.25, 1.5]
+
+
+def _setup(kind, impl, seed, K=None, opts=None):
+    """grid, coordinates, equation for a class; deterministic in (kind, impl, seed, opts).
+    opts: oro = 'band' (band-limited modal field) | 'untruncated' (to_modal of a nodal field: energy at the top
+    wavenumber) | 'none'; vertical_advection = 'upwind'; include_vertical_advection; vertical_matmul_method"""
+    m = dyn.mods(); jnp = m['jnp']
+    opts = opts or {}
+    K = K or opts.get('K', 3)
     rng = np.random.Generator(np.random.PCG64(seed))
-    g = dyn.grid(**GRIDS[impl])
+    g = _grid(GRIDS[impl])
+    def orography(amp):
+        mode = opts.get('oro', 'band')
+        if mode == 'untruncated':
+            z = rng.integers(-16, 17, size=tuple(g.nodal_shape)).astype(np.float64) / 16 * amp
+            return np.asarray(g.to_modal(jnp.asarray(z)))
+        if mode == 'none':
+            return None
+        return dyn.modal_field(rng, g, (), 2, amp=amp)
     if kind == 'sw':
-        c = dyn.layer_coords(g, 2)
-        eq = dyn.sw_equation(c, [1.0, 1.25], [1.0, 0.5], dyn.modal_field(rng, g, (), 2, amp=0.05))
+        nl = opts.get('K', 2)
+        c = dyn.layer_coords(g, nl)
+        oro = orography(0.05)
+        if oro is None:
+            specs = m['sw'].ShallowWaterSpecs(np.asarray(SW_DENSITIES[:nl]), 1.0, 1.0, 1.0, m['scales'].DEFAULT_SCALE)
+            eq = m['sw'].ShallowWaterEquations(c, specs, None, np.asarray(SW_REF_POTENTIAL[:nl]))
+        else:
+            eq = dyn.sw_equation(c, SW_DENSITIES[:nl], SW_REF_POTENTIAL[:nl], oro)
     else:
         c = dyn.coords(g, util.uneven_boundaries(rng, K))
         tref = 250.0 + rng.integers(-20, 21, size=K).astype(np.float64)
-        oro = dyn.modal_field(rng, g, (), 2, amp=0.01)
-        eq = dyn.pe_equation(kind, c, dyn.pe_specs(), tref, oro)
+        if opts.get('tref') == 'constant': tref = np.full(K, 260.0)
+        oro = orography(0.01)
+        kw = {}
+        if opts.get('vertical_advection') == 'upwind': kw['vertical_advection'] = m['sc'].upwind_vertical_advection
+        if 'include_vertical_advection' in opts: kw['include_vertical_advection'] = bool(opts['include_vertical_advection'])
+        if 'vertical_matmul_method' in opts: kw['vertical_matmul_method'] = opts['vertical_matmul_method']
+        eq = dyn.pe_equation(kind, c, dyn.pe_specs(), tref, oro, **kw)
     return rng, g, c, eq
 
 
 UNIFORM = 'uniform_tracer'
 
 
-def _state(rng, kind, c, q0):
+def _state(rng, kind, c, q0, degree=2, mode='random', gd=None):
+    """admissible state.  degree: highest populated total wavenumber (L-2 = the highest retained one);
+    mode: 'random' | 'top_single' (one non-zero coefficient per field, at the highest retained wavenumber) |
+    'rest' (identically zero vorticity, divergence, T', lnps, moisture)"""
     m = dyn.mods(); jax = m['jax']; jnp = m['jnp']
+    g = c.horizontal
     if kind == 'sw':
-        st = dyn.sw_state(rng, c)
+        st = dyn.sw_state(rng, c, degree)
     else:
-        st = dyn.pe_state(rng, c, 2, dyn.PE_TRACERS[kind], with_time=(kind != 'dry'))
-        uni = np.zeros((c.vertical.layers,) + tuple(c.horizontal.modal_shape)); uni[:, 0, 0] = q0
+        st = dyn.pe_state(rng, c, degree, dyn.PE_TRACERS[kind], with_time=(kind != 'dry'))
+        uni = np.zeros((c.vertical.layers,) + tuple(g.modal_shape)); uni[:, 0, 0] = q0
         d = st.asdict(); d['tracers'] = dict(d['tracers']); d['tracers'][UNIFORM] = uni
+        st = type(st)(**d)
+    if mode != 'random':
+        Ltop = gd['L'] - 2
+        fast = gd['impl'] != 'real'
+        def shape_field(name, v):
+            v = np.asarray(v, dtype=np.float64)
+            if v.ndim < 2: return v
+            r = np.zeros_like(v)
+            if name == 'potential': r[..., 0, 0] = v[..., 0, 0]
+            if mode == 'top_single':
+                row = (2 if fast else 1) + int(rng.integers(0, 2))       # m = 1, cos or sin
+                amp = float(np.abs(v).max()) or 1e-3
+                r[..., row, Ltop] = amp * ((1 + np.arange(v.shape[0]) / 4) if v.ndim == 3 else 1.0)
+            return r
+        d = {}
+        for k, v in st.asdict().items():
+            d[k] = {t: (x if t == UNIFORM else shape_field(t, x)) for t, x in v.items()} if isinstance(v, dict) else shape_field(k, v)
         st = type(st)(**d)
     return jax.tree_util.tree_map(lambda q: jnp.asarray(q, dtype=np.float64), st)
 
@@ -333,12 +467,15 @@ def _check_pattern(ctx, clause, st, req):
 def r_traj(ctx, a):
     m = dyn.mods(); jax = m['jax']; jnp = m['jnp']; ti = m['ti']
     kind = a['kind']; impl = a['impl']; dt = a['dt']; name = a['integrator']
-    rng, g, c, eq = _setup(kind, impl, a['seed'])
+    opts = a.get('opts') or {}
+    rng, g, c, eq = _setup(kind, impl, a['seed'], opts=opts)
     req = _required_zero(g)
     q0 = 0.0078125 * float(rng.integers(1, 9))
-    x0 = _state(rng, kind, c, q0)
+    degree = a.get('degree', 2); mode = a.get('mode', 'random')
+    if degree == 'top': degree = GRIDS[impl]['L'] - 2
+    x0 = _state(rng, kind, c, q0, degree, mode, GRIDS[impl])
     lf = name == 'semi_implicit_leapfrog'
-    step = dyn.integrator(name, eq, dt)
+    step = _make_integrator(name, eq, dt, a.get('alpha', 0.5))
     specs = [{'type': f} if isinstance(f, str) else dict(f) for f in a['filters']]
     fl = _build_filters(specs, g, dt, lf)
     fix = any(f['type'] == 'fix_time' for f in specs)
@@ -346,7 +483,7 @@ def r_traj(ctx, a):
     step = ti.step_with_filters(step, fl)
     kmax = max(a['ks'])
     if lf:
-        x1 = _state(rng, kind, c, q0)          # a second admissible snapshot
+        x1 = _state(rng, kind, c, q0, degree, mode, GRIDS[impl])          # a second admissible snapshot
         if hasattr(x1, 'sim_time'): x1 = _map_named(x1, lambda n, v: jnp.asarray((n0 + 1) * dt) if n == 'sim_time' else v)
         if kind == 'sw':                       # both snapshots carry the same mean thickness
             x1 = _map_named(x1, lambda n, v: v.at[..., 0, 0].set(x0.potential[..., 0, 0]) if n == 'potential' else v)
@@ -355,7 +492,16 @@ def r_traj(ctx, a):
     else:
         if hasattr(x0, 'sim_time'): x0 = _map_named(x0, lambda n, v: jnp.asarray(n0 * dt) if n == 'sim_time' else v)
         init = x0
-    _, traj = jax.jit(ti.trajectory_from_step(step, kmax, 1))(init)
+    f32 = a.get('dtype') == 'float32'
+    if f32:   # single-precision states in x64 mode: only the exact-zero pattern is exact on the unchanged tree
+        init = jax.tree_util.tree_map(lambda q: jnp.asarray(q, dtype=np.float32), init)
+    run = jax.jit(ti.trajectory_from_step(step, kmax, 1))
+    _, traj = run(init)
+    # purity: the same compiled trajectory evaluated again gives bit-identical states
+    _, traj2 = run(init)
+    ctx.oracle('re-evaluating the same step function on the same state is bit-identical',
+               all(np.array_equal(np.asarray(p), np.asarray(q)) for p, q in zip(dyn.tree_leaves(traj), dyn.tree_leaves(traj2))))
+    ctx.oracle('trajectory finite', dyn.tree_all_finite(traj))
     has_time = kind not in ('dry', 'sw')
     typ = {n: max(float(np.max(np.abs(x))), 1e-300) for n, x in _leaves(x0)}
     for k in a['ks']:
@@ -363,6 +509,7 @@ def r_traj(ctx, a):
         sts = list(frame) if lf else [frame]
         for st in sts:
             _check_pattern(ctx, 'entries outside the triangular truncation and at the clipped top total wavenumber stay exactly zero', st, req)
+        if f32: continue
         st = sts[-1]
         L = dict(_leaves(st)); L0 = dict(_leaves(x0))
         for f in ('vorticity', 'divergence'):
@@ -448,7 +595,7 @@ def _dense_like(rng, st, g, mode, scaled=False):
 def r_unit(ctx, a):
     m = dyn.mods(); jax = m['jax']; jnp = m['jnp']
     kind = a['kind']; impl = a['impl']
-    rng, g, c, eq = _setup(kind, impl, a['seed'])
+    rng, g, c, eq = _setup(kind, impl, a['seed'], opts=a.get('opts'))
     req = _required_zero(g)
     st = _state(rng, kind, c, 0.01)
     exact00 = kind in ('dry', 'time', 'sw')
@@ -459,10 +606,24 @@ def r_unit(ctx, a):
     ex = jax.jit(eq.explicit_terms)
     e = ex(dense)
     ctx.oracle('explicit tendencies finite', dyn.tree_all_finite(e))
-    top = np.zeros_like(req); top[:, g.total_wavenumbers - 1:] = True
+    top = np.zeros_like(req); top[:, GRIDS[impl]['L'] - 1:] = True
     _check_pattern(ctx, 'explicit_terms of ANY input has exact zeros at the top wavenumber' if kind == 'sw' else
                    'explicit_terms of ANY input has exact zeros outside the truncation and at the top wavenumber', e, top if kind == 'sw' else req)
-    inmask = _map_named(dense, lambda n, v: v * np.asarray(g.mask) if np.ndim(v) >= 2 else v)
+    if a.get('interleave'):
+        # the same equation object evaluated again after a different configuration (other radius, other layout) was
+        # built and evaluated in the same process must give bit-identical tendencies (no state leaks through caches)
+        for other in a['interleave']:
+            rng2, g2, c2, eq2 = _setup(kind, other, a['seed'], opts=a.get('opts'))
+            st2 = _state(rng2, kind, c2, 0.01, gd=GRIDS[other])
+            jax.block_until_ready(jax.jit(eq2.explicit_terms)(st2)); eq2.implicit_inverse(st2, 0.03)
+        rng3, g3, c3, eq3 = _setup(kind, impl, a['seed'], opts=a.get('opts'))      # a fresh, equal configuration
+        e_again = ex(dense); e_fresh = jax.jit(eq3.explicit_terms)(dense)
+        same = lambda p, q: all(np.array_equal(np.asarray(u), np.asarray(v)) for u, v in zip(dyn.tree_leaves(p), dyn.tree_leaves(q)))
+        ctx.oracle('explicit_terms re-evaluated after other configurations were used is bit-identical', same(e, e_again))
+        ctx.oracle('an equal configuration built later gives bit-identical explicit_terms', same(e, e_fresh))
+        ctx.oracle('implicit_inverse re-evaluated after other configurations were used is bit-identical',
+                   same(eq.implicit_inverse(dense, 0.03), eq3.implicit_inverse(dense, 0.03)))
+    inmask = _map_named(dense, lambda n, v: v * _mask_indep(g) if np.ndim(v) >= 2 else v)
     e1 = ex(inmask)
     _check_pattern(ctx, 'explicit_terms of any input inside the triangular mask (top wavenumber populated) lands in the pattern', e1, req)
     ok = all(int(np.count_nonzero(x[..., req])) == 0 for n, x in _leaves(e1) if x.ndim >= 2)
@@ -496,8 +657,17 @@ def r_unit(ctx, a):
     ctx.oracle('(0,0) coefficients of the implicit vorticity and divergence tendencies are exactly 0',
                bool(np.all(GI['vorticity'][..., 0, 0] == 0.0)) and bool(np.all(GI['divergence'][..., 0, 0] == 0.0)),
                {'div': GI['divergence'][..., 0, 0]})
-    for eta in (0.01, -0.01, 0.1):
-        inv = eq.implicit_inverse(conf, eta)
+    methods = [None] if kind == 'sw' else [None, 'stacked', 'blockwise']
+    for eta, method in [(e, mth) for e in (0.01, -0.01, 0.1) for mth in methods][:(9 if ctx.tier != 'quick' else 5)]:
+        if method is None:
+            inv = eq.implicit_inverse(conf, eta)
+        else:
+            # the alternative solution methods of PrimitiveEquations.implicit_inverse (time is passed through by the subclass)
+            from dinosaur import primitive_equations as _pe
+            d0 = conf.asdict(); tm = d0.pop('sim_time', None)
+            base = _pe.PrimitiveEquations.implicit_inverse(eq, _pe.State(**d0), eta, method=method)
+            inv = type(conf)(**base.asdict(), **({'sim_time': tm} if tm is not None else {}))
+            ctx.count('inverse_method:' + method)
         _check_pattern(ctx, 'implicit_inverse keeps the zero pattern', inv, req)
         IV = dict(_leaves(inv))
         for f in ('vorticity', 'divergence'):
@@ -507,9 +677,9 @@ def r_unit(ctx, a):
         if kind == 'sw':
             d00 = C0['divergence'][..., 0, 0]; p00 = C0['potential'][..., 0, 0]
             ctx.oracle_close('shallow-water inverse at (0,0): potential - eta*ref_potential*divergence',
-                             IV['potential'][..., 0, 0], p00 - eta * np.asarray(eq.reference_potential) * d00, scale=1.0, tol_rel=1e-14)
+                             IV['potential'][..., 0, 0], p00 - eta * np.asarray(SW_REF_POTENTIAL[:len(d00)]) * d00, scale=1.0, tol_rel=1e-14)
             ctx.oracle_close('shallow-water implicit potential tendency at (0,0) = -ref_potential*divergence',
-                             GI['potential'][..., 0, 0], -np.asarray(eq.reference_potential) * d00, scale=1.0, tol_rel=1e-14)
+                             GI['potential'][..., 0, 0], -np.asarray(SW_REF_POTENTIAL[:len(d00)]) * d00, scale=1.0, tol_rel=1e-14)
         if 'sim_time' in IV:
             ctx.oracle('implicit_inverse leaves sim_time untouched', float(IV['sim_time']) == 0.7, {'sim_time': float(IV['sim_time'])})
     if 'sim_time' in E:
@@ -533,17 +703,28 @@ def r_time_unit(ctx, a):
     """filters vs scalar / non-modal leaves (shape rule), on plain trees"""
     m = dyn.mods(); jnp = m['jnp']; ti = m['ti']; filtering = m['filtering']
     rng = np.random.Generator(np.random.PCG64(a['seed']))
-    for gd in (GRIDS['real'], GRIDS['fast'], dict(M=2, L=2, I=6, J=4, impl='real')):
-        g = dyn.grid(**gd)
-        x = {'u': jnp.asarray(dyn.modal_field(rng, g, (2,), 3) + 1.0 * np.asarray(g.mask)), 'sim_time': jnp.asarray(1.375), 't_py': 2.5}
+    for gd in (GRIDS['real'], GRIDS['fast'], dict(M=2, L=2, I=6, J=4, impl='real'), GRIDS['fast8'], GRIDS['real_L6']):
+        g = _grid(gd)
+        mk = np.asarray(g.mask).astype(np.float64)
+        x = {'u': jnp.asarray(dyn.modal_field(rng, g, (2,), 3) + 1.0 * mk), 'sim_time': jnp.asarray(1.375), 't_py': 2.5,
+             # other forms of leaves a filter must not touch: 1-element array, integer counter, float32 scalar, nodal field
+             't_1': jnp.asarray([1.375]), 'n_int': np.int64(7), 't_f32': np.float32(0.625),
+             'nodal': jnp.asarray(rng.integers(-4, 5, size=tuple(g.nodal_shape)).astype(np.float64))}
+        # leading batch axes with different content per slice, ranks 2..5
+        ranks = {'r2': (), 'r4': (3, 2), 'r5': (2, 1, 3)}
+        for rk, lead in ranks.items():
+            x[rk] = jnp.asarray(dyn.modal_field(rng, g, lead, 3) + mk * (1 + np.arange(int(np.prod(lead, dtype=int)) or 1).reshape(lead + (1, 1))))
         both = lambda f: (lambda s: f(s, s))
         fns = {}
         for cutoff in (0, 0.3, 0.4, 0.7):
-            for att, order in ((16, 2), (16, 18), (2.5, 6), (0.125, 1)):
+            for att, order in ((16, 2), (16, 18), (2.5, 6), (0.125, 1), (1e-3, 3), (1e3, 2)):
                 fns[f'exponential_filter(att={att},order={order},cutoff={cutoff})'] = filtering.exponential_filter(g, att, order, cutoff)
             fns[f'exponential_step_filter(cutoff={cutoff})'] = both(ti.exponential_step_filter(g, 0.1, tau=1.0, order=2 if cutoff else 18, cutoff=cutoff))
             lfilt = ti.exponential_leapfrog_step_filter(g, 0.1, tau=0.5, order=6, cutoff=cutoff)
             fns[f'exponential_leapfrog_step_filter(cutoff={cutoff})'] = (lambda f: (lambda s: f((s, s), (s, s))[1]))(lfilt)
+        # per-level attenuation / scale arrays (leading axis 2 as in 'u')
+        fns['exponential_filter(att=array,cutoff=0.3)'] = filtering.exponential_filter(g, np.array([4.0, 16.0]).reshape(2, 1, 1), 2, 0.3)
+        fns['horizontal_diffusion_filter(scale=array)'] = filtering.horizontal_diffusion_filter(g, np.array([0.25, 2.0]).reshape(2, 1, 1), 2)
         for order in (1, 2, 3):
             fns[f'horizontal_diffusion_filter(order={order})'] = filtering.horizontal_diffusion_filter(g, 0.5, order)
             fns[f'horizontal_diffusion_step_filter(order={order})'] = both(ti.horizontal_diffusion_step_filter(g, 0.1, tau=1.0, order=order))
@@ -553,7 +734,16 @@ def r_time_unit(ctx, a):
                        {'filter': nm, 'grid': gd, 'sim_time': float(y['sim_time']), 't_py': float(y['t_py'])})
             ctx.oracle('filters leave the (0,0) coefficients unchanged', bool(np.all(np.asarray(y['u'])[..., 0, 0] == np.asarray(x['u'])[..., 0, 0])),
                        {'filter': nm, 'grid': gd, 'after': np.asarray(y['u'])[..., 0, 0], 'before': np.asarray(x['u'])[..., 0, 0]})
-            ctx.oracle('filters keep exact zeros outside the truncation', bool(np.all(np.asarray(y['u'])[..., ~np.asarray(g.mask)] == 0.0)), {'filter': nm})
+            ctx.oracle('filters keep exact zeros outside the truncation', bool(np.all(np.asarray(y['u'])[..., ~_mask_indep(g, gd)] == 0.0)), {'filter': nm})
+            same = lambda p, q: type(p) is type(q) and np.asarray(p).dtype == np.asarray(q).dtype and np.array_equal(np.asarray(p), np.asarray(q))
+            bad = [k for k in ('t_1', 'n_int', 't_f32', 'nodal') if not same(y[k], x[k])]
+            if tuple(g.nodal_shape)[-1] == g.modal_shape[-1]: bad = [k for k in bad if k != 'nodal']
+            ctx.oracle('filters leave non-modal leaves (1-element, integer, float32, nodal) untouched', not bad, {'filter': nm, 'grid': gd, 'changed': bad})
+            for rk in ranks:
+                yy = np.asarray(y[rk]); xx = np.asarray(x[rk])
+                ctx.oracle('filters leave the (0,0) coefficients unchanged', bool(np.all(yy[..., 0, 0] == xx[..., 0, 0])) and yy.shape == xx.shape,
+                           {'filter': nm, 'rank': rk})
+
 
 
 def r_fix_time_unit(ctx, a):
